@@ -9,7 +9,8 @@
 (* each with every method the table uses plus one it does not.                  *)
 EXTENDS RouteResolve, Json
 
-CONSTANTS Wide
+CONSTANTS Wide,
+          MethodPick   \* request methods to use ({} = every method of the table and one it does not use)
 
 Side        == JsonDeserialize("side.json")
 GRVarTexts  == {Side.vars[k] : k \in DOMAIN Side.vars}
@@ -38,7 +39,7 @@ Variants(p) == {p, Toggle(p)} \cup ProperPrefixes(p) \cup Doubled(p) \cup (IF Wi
 \*  read from side.json have been cached - as zero-arity definitions they would be pre-evaluated in an
 \*  unspecified order, re-reading side.json at every reference)
 Paths(z) == {Root} \cup UNION {Variants(p) : p \in {f \in UNION {Fills(r, 1) : r \in GRTable} : Len(f) >= 1}}
-Methods == {r.m : r \in GRTable} \cup {"OPTIONS"}
+Methods == IF MethodPick = {} THEN {r.m : r \in GRTable} \cup {"OPTIONS"} ELSE MethodPick
 GRReqs(z) == {[m |-> m, p |-> p] : m \in Methods \ {AnyM}, p \in Paths(z)}
 GRNoReqs == {}
 
